@@ -146,10 +146,14 @@ fn case(rng: &mut Rng, pools: &mut Pools, rep: &mut Report, case_no: u64) {
     let profile = *rng.pick(&PROFILES);
     let mut c = cfg_for(profile, rng);
     c.n = (c.n.0.min(3), c.n.1.min(14));
+    if crate::props::sched::tiny() {
+        c.n = (2, 4);
+        c.max_batches = 1;
+    }
     c.tl = (0, 2);
     c.p_dep = c.p_dep.max(25);
     let plan = gen_with(rng, &c);
-    let pool_size = *rng.pick(&POOL_SIZES);
+    let pool_size = if crate::props::sched::tiny() { rng.range(1, 3) } else { *rng.pick(&POOL_SIZES) };
     let pool = pools.get(pool_size);
     let n_uids = plan.n_uids();
     let all = victims_of(&plan);
@@ -158,7 +162,7 @@ fn case(rng: &mut Rng, pools: &mut Pools, rep: &mut Report, case_no: u64) {
     }
     let mut order = all.clone();
     rng.shuffle(&mut order);
-    order.truncate(6);
+    order.truncate(if crate::props::sched::tiny() { 2 } else { 6 });
     for (vi, &(victim, is_tl, is_dyn)) in order.iter().enumerate() {
         let mut m = *rng.pick(&MODES);
         if is_tl && !m.runs_tl() {
@@ -364,6 +368,9 @@ fn case(rng: &mut Rng, pools: &mut Pools, rep: &mut Report, case_no: u64) {
 pub fn run(args: &Args) -> i32 {
     let mut rep = Report::new(args);
     let mut pools = Pools::new();
+    if args.has("--tiny") {
+        crate::props::sched::TINY.store(true, SeqCst);
+    }
     let n = args.count(640, 16_000);
     let range: Vec<u64> = match args.case {
         Some(c) => vec![c],
